@@ -169,6 +169,24 @@ T = [
      "        _ = self.then.insert((regex.into(), loc), step);", "        _ = self.when.insert((regex.into(), loc), step);"),
     ("c17_ord_ignores_pattern", "C17/R3", "src/step.rs",
      "        self.0.as_str().cmp(other.0.as_str())", "        self.0.as_str().len().cmp(&other.0.as_str().len())"),
+    # ---- C18
+    ("c18_feature_tag_before_scenario_tag", "C18/R1", B,
+     "            parse_tags(&scenario.tags)\n                .or_else(|| rule.and_then(|r| parse_tags(&r.tags)))\n                .or_else(|| parse_tags(&feature.tags)),",
+     "            parse_tags(&feature.tags)\n                .or_else(|| rule.and_then(|r| parse_tags(&r.tags)))\n                .or_else(|| parse_tags(&scenario.tags)),"),
+    ("c18_builder_retries_over_cli", "C18/R3", B,
+     "        cli.retry = cli.retry.or(retries);", "        cli.retry = retries.or(cli.retry);"),
+    ("c18_cli_count_over_tag", "C18/R2", B,
+     "                    options.and_then(|(r, _)| r).or(cli.retry).unwrap_or(1),", "                    cli.retry.or(options.and_then(|(r, _)| r)).unwrap_or(1),"),
+    ("c18_default_zero_retries", "C18/R2", B,
+     "                    options.and_then(|(r, _)| r).or(cli.retry).unwrap_or(1),", "                    options.and_then(|(r, _)| r).or(cli.retry).unwrap_or(0),"),
+    ("c18_filter_ignores_feature_tags", "C18/R4", B,
+     "                    op.eval(scenario.tags.iter().chain(\n                        rule.iter().flat_map(|r| &r.tags).chain(&feature.tags),\n                    ))", "                    op.eval(\n                        scenario\n                            .tags\n                            .iter()\n                            .chain(rule.iter().flat_map(|r| &r.tags)),\n                    )"),
+    ("c18_untagged_always_retried_with_after", "C18/R4", B,
+     "                || cli.retry.is_some() || cli.retry_after.is_some(),", "                || cli.retry.is_some(),"),
+    ("c18_retry_filter_builder_over_cli", "C18/R3", B,
+     "        cli.retry_tag_filter = cli.retry_tag_filter.or(retry_filter);", "        cli.retry_tag_filter = retry_filter.or(cli.retry_tag_filter);"),
+    ("c18_delay_swapped_with_count_component", "C18/R2", B,
+     "                after: options.and_then(|(_, a)| a).or(cli.retry_after),", "                after: cli.retry_after.or(options.and_then(|(_, a)| a)),"),
     # ---- C10
     ("c10_world_new_outside_catch", "C10/R1", B,
      "                match AssertUnwindSafe(async { W::new().await })\n                    .catch_unwind()\n                    .then_yield()\n                    .await\n                {\n                    Ok(Ok(w)) => w,",
